@@ -11,6 +11,10 @@
  *                             Lean model; the driver is instantiated with what is printed here)
  *   cmp <specA> <specB>       r=<rc>,<n>  of hawk_rtx_cmpval   o=<lt le eq ne ge gt teq tne> | ERR
  *   asort <v|k> <m|a|n> spec..  the real asort/asorti (see do_asort)
+ *   asortx <fn> <m|a|n|k> [<key>=<spec> | -<key>]..   build the global X (map: key = hex4 units; array: key = slot number;
+ *                             n = nil; k = keep X and G as the previous call left them), remove the `-<key>` elements with
+ *                             `delete`, call the hawk function <fn> (a1..a8, u1..u5: see the source text below), print
+ *                             pre=<X> preG=<G> rv=<n|ERR> X=<X> G=<G>  (see do_asortx)
  *
  * value specs: N | C<code> | B<byte> | I<int> | F<strtold text> | S<hex4 units> (plain string)
  *   | T<hex4 units> (hawk_rtx_makenstrvalwithoochars: numeric-string flag as hawk assigns it)
@@ -30,15 +34,39 @@ _Static_assert(sizeof(hawk_uch_t) == 2, "harness assumes 16-bit hawk_uch_t (hex4
 
 static hawk_t* hawk;
 static hawk_rtx_t* rtx;
-static hawk_fun_t* fun_t, * fun_f, * fun_g, * fun_s1, * fun_s2;
-static int cur_ss, gid_G;
+static hawk_fun_t* fun_t, * fun_q, * fun_f, * fun_g, * fun_s1, * fun_s2;
+static int cur_ss, gid_G, gid_X;
 
 static const char* src =
 	"function t(a,b) { return (a<b) (a<=b) (a==b) (a!=b) (a>=b) (a>b) (a===b) (a!==b); }\n"
+	"function q(a,b) { return (a===b) (a!==b); }\n"
 	"function f(a) { return a; }\n"
 	"function g(a) { return a; }\n"
 	"function s1(x) { return asort(x, G); }\n"
-	"function s2(x) { return asorti(x, G); }\n";
+	"function s2(x) { return asorti(x, G); }\n"
+	/* asortx: sources and destinations are the globals X and G */
+	"function a1() { return asort(X, G); }\n"
+	"function a2() { return asorti(X, G); }\n"
+	"function a3() { return asort(X); }\n"
+	"function a4() { return asorti(X); }\n"
+	"function a5() { return asort(X, X); }\n"
+	"function a6() { return asorti(X, X); }\n"
+	"function a7() { return asort(G, G); }\n"
+	"function a8() { return asorti(G, G); }\n"
+	"function ucmp(a, b) { return (a < b)? -1: ((a > b)? 1: 0); }\n"
+	"function urev(a, b) { return (a < b)? 1: ((a > b)? -1: 0); }\n"
+	"function uzero(a, b) { return 0; }\n"
+	"function uerr(a, b) { if (a == 13 || b == 13) return 1 % ZERO; return (a < b)? -1: ((a > b)? 1: 0); }\n"
+	"function one(a) { return 0; }\n"
+	"function u6() { return asort(X, G, uerr); }\n"
+	"function u7() { return asort(X, G, 5); }\n"
+	"function u8() { return asort(X, G, one); }\n"
+	"function u1() { return asort(X, G, ucmp); }\n"
+	"function u2() { return asorti(X, G, ucmp); }\n"
+	"function u3() { return asort(X, G, urev); }\n"
+	"function u4() { return asort(X, G, uzero); }\n"
+	"function u5() { return asort(X, X, ucmp); }\n"
+	"function dl(k) { delete X[k]; }\n";
 
 static void die (const char* m) { printf("HARNESS-ERROR %s\n", m); fflush(stdout); exit(4); }
 
@@ -66,22 +94,24 @@ static void open_cfg (int ic, int nc, int ss, int fm)
 	if (hawk_setopt(hawk, HAWK_OPT_TRAIT, &trait) <= -1) die("hawk_setopt");
 
 	gid_G = hawk_addgblwithbcstr(hawk, "G");
-	if (gid_G <= -1) die("addgbl G");
+	gid_X = hawk_addgblwithbcstr(hawk, "X");
+	if (gid_G <= -1 || gid_X <= -1) die("addgbl G/X");
 
 	memset(psin, 0, sizeof(psin));
 	psin[0].type = HAWK_PARSESTD_BCS;
 	psin[0].u.bcs.ptr = (hawk_bch_t*)src;
 	psin[0].u.bcs.len = strlen(src);
 	psin[1].type = HAWK_PARSESTD_NULL;
-	if (hawk_parsestd(hawk, psin, HAWK_NULL) <= -1) die("hawk_parsestd");
+	if (hawk_parsestd(hawk, psin, HAWK_NULL) <= -1) { printf("HARNESS-ERROR hawk_parsestd: %s\n", hawk_geterrbmsg(hawk)); fflush(stdout); exit(4); }
 	rtx = hawk_rtx_openstd(hawk, 0, HAWK_T("cmp_h"), HAWK_NULL, HAWK_NULL, HAWK_NULL);
 	if (!rtx) die("hawk_rtx_openstd");
 	fun_t = hawk_rtx_findfunwithbcstr(rtx, "t");
+	fun_q = hawk_rtx_findfunwithbcstr(rtx, "q");
 	fun_f = hawk_rtx_findfunwithbcstr(rtx, "f");
 	fun_g = hawk_rtx_findfunwithbcstr(rtx, "g");
 	fun_s1 = hawk_rtx_findfunwithbcstr(rtx, "s1");
 	fun_s2 = hawk_rtx_findfunwithbcstr(rtx, "s2");
-	if (!fun_t || !fun_f || !fun_g || !fun_s1 || !fun_s2) die("findfun");
+	if (!fun_t || !fun_q || !fun_f || !fun_g || !fun_s1 || !fun_s2) die("findfun");
 	v = hawk_rtx_makeintval(rtx, ic);
 	hawk_rtx_refupval(rtx, v);
 	if (hawk_rtx_setgbl(rtx, HAWK_GBL_IGNORECASE, v) <= -1) die("setgbl IGNORECASE");
@@ -229,17 +259,27 @@ static void cmp (const char* sa, const char* sb)
 	rc = hawk_rtx_cmpval(rtx, a, b, &n);
 	if (rc <= -1) printf("r=-1,x"); else printf("r=0,%d", n);
 	args[0] = a; args[1] = b;
-	r = hawk_rtx_callfun(rtx, fun_t, args, 2);
-	if (!r) printf(" o=ERR\n");
-	else
 	{
-		hawk_oow_t len; hawk_bch_t* s;
-		hawk_rtx_refupval(rtx, r);
-		s = hawk_rtx_valtobcstrdup(rtx, r, &len);
-		if (!s) die("valtobcstrdup");
-		printf(" o=%.*s\n", (int)len, s);
-		hawk_rtx_freemem(rtx, s);
-		hawk_rtx_refdownval(rtx, r);
+		/* o = the six relational operators and ===, !== in one expression (one failing operator fails them all);
+		 * q = === and !== alone (they never fail, also on functions, maps and arrays) */
+		hawk_fun_t* fs[2]; const char* tag[2]; int k;
+		fs[0] = fun_t; fs[1] = fun_q; tag[0] = " o="; tag[1] = " q=";
+		for (k = 0; k < 2; k++)
+		{
+			r = hawk_rtx_callfun(rtx, fs[k], args, 2);
+			if (!r) printf("%sERR", tag[k]);
+			else
+			{
+				hawk_oow_t len; hawk_bch_t* s;
+				hawk_rtx_refupval(rtx, r);
+				s = hawk_rtx_valtobcstrdup(rtx, r, &len);
+				if (!s) die("valtobcstrdup");
+				printf("%s%.*s", tag[k], (int)len, s);
+				hawk_rtx_freemem(rtx, s);
+				hawk_rtx_refdownval(rtx, r);
+			}
+		}
+		printf("\n");
 	}
 	hawk_rtx_refdownval(rtx, a);
 	hawk_rtx_refdownval(rtx, b);
@@ -374,6 +414,142 @@ done:
 	free(vals); free(used);
 }
 
+/* ---- asortx: asort/asorti on arbitrary sources (maps with any string keys, arrays with any occupied slots incl. 0 and
+ * gaps, elements removed with `delete`, nil), every destination form (separate variable, the same variable, in place,
+ * the previous result sorted again), default and user comparators.  Values are reported as TOKENS (a value spec that
+ * rebuilds an equal value), containers as m{<keyhex4>:<token>,..} in traversal order / a{<slot>:<token>,..} / nil. */
+static void puttok (hawk_val_t* v)
+{
+	switch (HAWK_RTX_GETVALTYPE(rtx, v))
+	{
+		case HAWK_VAL_NIL: printf("N"); break;
+		case HAWK_VAL_CHAR: printf("C%u", (unsigned)(hawk_oochu_t)HAWK_RTX_GETCHARFROMVAL(rtx, v)); break;
+		case HAWK_VAL_BCHR: printf("B%u", (unsigned)(hawk_bchu_t)HAWK_RTX_GETBCHRFROMVAL(rtx, v)); break;
+		case HAWK_VAL_INT: printf("I%lld", (long long)HAWK_RTX_GETINTFROMVAL(rtx, v)); break;
+		case HAWK_VAL_FLT: printf("F%La", (long double)((hawk_val_flt_t*)v)->val); break;
+		case HAWK_VAL_STR: printf("%c", ((hawk_val_str_t*)v)->v_nstr? 'T': 'S'); putu(((hawk_val_str_t*)v)->val.ptr, ((hawk_val_str_t*)v)->val.len); break;
+		case HAWK_VAL_MBS: printf("M"); putb(((hawk_val_mbs_t*)v)->val.ptr, ((hawk_val_mbs_t*)v)->val.len); break;
+		default: printf("?"); break;
+	}
+}
+
+static void dumpc (hawk_val_t* c)
+{
+	int first = 1;
+	switch (HAWK_RTX_GETVALTYPE(rtx, c))
+	{
+		case HAWK_VAL_NIL: printf("nil"); break;
+		case HAWK_VAL_MAP:
+		{
+			hawk_val_map_itr_t itr;
+			printf("m{");
+			if (hawk_rtx_getfirstmapvalitr(rtx, c, &itr))
+			{
+				do
+				{
+					const hawk_oocs_t* k = HAWK_VAL_MAP_ITR_KEY(&itr);
+					if (!first) printf(",");
+					first = 0;
+					putu(k->ptr, k->len); printf(":"); puttok((hawk_val_t*)HAWK_VAL_MAP_ITR_VAL(&itr));
+				}
+				while (hawk_rtx_getnextmapvalitr(rtx, c, &itr));
+			}
+			printf("}");
+			break;
+		}
+		case HAWK_VAL_ARR:
+		{
+			hawk_arr_t* arr = ((hawk_val_arr_t*)c)->arr;
+			hawk_oow_t j;
+			printf("a{");
+			for (j = 0; j < HAWK_ARR_SIZE(arr); j++)
+			{
+				if (!HAWK_ARR_SLOT(arr, j)) continue;
+				if (!first) printf(",");
+				first = 0;
+				printf("%lu:", (unsigned long)j); puttok((hawk_val_t*)HAWK_ARR_DPTR(arr, j));
+			}
+			printf("}");
+			break;
+		}
+		default: printf("other:"); puttok(c); break;
+	}
+}
+
+static hawk_oow_t hex4 (const char* s, size_t n, hawk_uch_t* u)
+{
+	size_t i;
+	for (i = 0; i < n / 4; i++) u[i] = (hawk_uch_t)((hexv(s[4 * i]) << 12) | (hexv(s[1 + 4 * i]) << 8) | (hexv(s[2 + 4 * i]) << 4) | hexv(s[3 + 4 * i]));
+	return n / 4;
+}
+
+static void do_asortx (const char* fn, char mode, char** items, int n)
+{
+	hawk_fun_t* f = hawk_rtx_findfunwithbcstr(rtx, fn);
+	hawk_val_t* x = HAWK_NULL, * r;
+	static hawk_uch_t kb[4096];
+	int i;
+
+	if (!f) { printf("bad-op no such function\n"); return; }
+	if (mode == 'm') x = hawk_rtx_makemapval(rtx);
+	else if (mode == 'a') x = hawk_rtx_makearrval(rtx, -1);
+	else if (mode == 'n') x = hawk_rtx_makenilval(rtx);
+	else if (mode == 's') x = hawk_rtx_makeintval(rtx, 5);       /* a source that is neither nil nor a container */
+	if (mode != 'k')
+	{
+		if (!x) die("asortx container");
+		hawk_rtx_refupval(rtx, x);
+		for (i = 0; i < n; i++)
+		{
+			char* eq = strchr(items[i], '=');
+			hawk_val_t* v;
+			if (items[i][0] == '-' || !eq) continue;
+			v = mkval(eq + 1);
+			if (mode == 'm')
+			{
+				hawk_oow_t kl = hex4(items[i], eq - items[i], kb);
+				if (!hawk_rtx_setmapvalfld(rtx, x, kb, kl, v)) die("asortx setmapvalfld");
+			}
+			else if (mode == 'a')
+			{
+				if (!hawk_rtx_setarrvalfld(rtx, x, strtol(items[i], NULL, 10), v)) die("asortx setarrvalfld");
+			}
+			hawk_rtx_refdownval(rtx, v);
+		}
+		if (hawk_rtx_setgbl(rtx, gid_X, x) <= -1) { printf("ERR setgbl X\n"); hawk_rtx_refdownval(rtx, x); return; }
+		hawk_rtx_refdownval(rtx, x);
+		/* elements removed the way a script removes them */
+		for (i = 0; i < n; i++)
+		{
+			hawk_val_t* k, * args[1], * rr;
+			if (items[i][0] != '-') continue;
+			if (mode == 'm') { hawk_oow_t kl = hex4(items[i] + 1, strlen(items[i] + 1), kb); k = hawk_rtx_makestrvalwithuchars(rtx, kb, kl); }
+			else k = hawk_rtx_makeintval(rtx, strtol(items[i] + 1, NULL, 10));
+			if (!k) die("asortx key");
+			hawk_rtx_refupval(rtx, k);
+			args[0] = k;
+			rr = hawk_rtx_callfun(rtx, hawk_rtx_findfunwithbcstr(rtx, "dl"), args, 1);
+			if (rr) { hawk_rtx_refupval(rtx, rr); hawk_rtx_refdownval(rtx, rr); }
+			hawk_rtx_refdownval(rtx, k);
+		}
+	}
+	printf("pre="); dumpc(hawk_rtx_getgbl(rtx, gid_X));
+	printf(" preG="); dumpc(hawk_rtx_getgbl(rtx, gid_G));
+	r = hawk_rtx_callfun(rtx, f, HAWK_NULL, 0);
+	if (!r) printf(" rv=ERR");
+	else
+	{
+		hawk_int_t rv;
+		hawk_rtx_refupval(rtx, r);
+		if (hawk_rtx_valtoint(rtx, r, &rv) <= -1) rv = -999;
+		hawk_rtx_refdownval(rtx, r);
+		printf(" rv=%lld", (long long)rv);
+	}
+	printf(" X="); dumpc(hawk_rtx_getgbl(rtx, gid_X));
+	printf(" G="); dumpc(hawk_rtx_getgbl(rtx, gid_G));
+	printf("\n");
+}
+
 int main (void)
 {
 	static char line[1 << 20];
@@ -387,6 +563,7 @@ int main (void)
 		else if (!rtx) printf("bad-op no-cfg\n");
 		else if (!strcmp(w[0], "desc") && nw == 2) desc(w[1]);
 		else if (!strcmp(w[0], "cmp") && nw == 3) cmp(w[1], w[2]);
+		else if (!strcmp(w[0], "asortx") && nw >= 3 && strchr("manks", w[2][0])) do_asortx(w[1], w[2][0], w + 3, nw - 3);
 		else if (!strcmp(w[0], "asort") && nw >= 3 && (w[1][0] == 'v' || w[1][0] == 'k') && (w[2][0] == 'm' || w[2][0] == 'a' || w[2][0] == 'n')) do_asort(w[1][0] == 'k', w[2][0], w + 3, nw - 3);
 		else printf("bad-op\n");
 	}
